@@ -172,7 +172,9 @@ INFO = {
         "rule": "stabilize is run on EVERY total-or-failing function over n states (n<=6 quick, n<=7 thorough) from every "
                 "start state, with single- and multi-byte state strings and four result representations (owned; borrowed only "
                 "when unchanged; always a borrowed 'static string; borrowed sub-slice of the argument), plus chains, "
-                "cycles (period 2-7) and tails beyond that bound; the closure logs every call. Oracle: simulation of the "
+                "cycles (period 2-7) and tails beyond that bound; the function spaces for n<=4/5 again with long state strings "
+                "(equal length with a 70-byte common prefix, strict prefixes, nested interior slices) and for n<=3 with 17 "
+                "well-known colliding string pairs of common 32-bit hashes as state names; the closure logs every call. Oracle: simulation of the "
                 "contract (<=4 applications, first error wins, first f(x)=x wins). Non-trivial = distinct (function, start, "
                 "representation) whose contract needs >=2 applications.",
         "floor_quick": 1000,
@@ -182,7 +184,9 @@ INFO = {
     "C14": {
         "rule": "every code point 0..=0x10FFFF x {IdentifierClass, FreeformClass} x {code point, char entry}, compared with "
                 "(1) the IANA registry snapshot read by an own parser and (2) an independent recomputation of RFC 8264 "
-                "section 8 from the raw 6.3.0 files; boundary and random u32 above U+10FFFF must be DISALLOWED/UNASSIGNED. "
+                "section 8 from the raw 6.3.0 files; boundary and random u32 above U+10FFFF must be DISALLOWED/UNASSIGNED; the table again in descending order, "
+                "in random jumps with neighbours looked up first, with the aliases cp|2^21..cp|2^31 right after cp, and from all "
+                "threads at once on 16 code points with alternating answers (lookup-order, history and concurrency independence). "
                 "Non-trivial = distinct code points decided by a step other than Unassigned / final default.",
         "floor_quick": 100000,
         "technique": "runtime monitoring: exhaustive differential check of every code point against two independent oracles",
@@ -192,12 +196,13 @@ INFO = {
         "rule": "the two real build scripts (/repo/precis-core/build.rs, /repo/precis-profiles/build.rs) are included verbatim "
                 "and run in-process on UCD directories written by the monitor: the pinned 6.3.0 / 16.0.0 inputs, synthetic "
                 "well-formed files (random segments of singles, First/Last ranges incl. First==Last, gaps of 0/1/many, value "
-                "runs, first entry != U+0000, early or U+10FFFD end, wide/narrow/compat/canonical decompositions, property "
-                "files with single/range/split lines) and perturbations of the real files (windows, subsets, run-wise "
+                "runs, first entry != U+0000, early or U+10FFFD end, wide/narrow/compat/canonical decompositions, ends at U+10FFFD or U+10FFFE, property "
+                "files with single/range/split lines, intervals straddling plane boundaries, ending at U+10FFFF, 90,000 long) and perturbations of the real files (windows, subsets, run-wise "
                 "re-assignment, folding singles into ranges and splitting ranges). Every emitted table is parsed back, "
                 "searched with the library's binary_search_by idiom over precis_core::Codepoints at every entry/truth "
                 "boundary (every code point when an anomaly is seen) and its denotation compared exactly with the ground "
-                "truth from the harness' own UCD parser; some cases are also compiled with rustc. Non-trivial = distinct "
+                "truth from the harness' own UCD parser; some cases are also compiled with rustc; every third case runs the build a second time in the same "
+                "directory on a same-length rewrite of UnicodeData.txt. Non-trivial = distinct "
                 "inputs with a range adjacent to a differently valued entry (or a pinned input).",
         "floor_quick": 100,
         "technique": "runtime monitoring: the real generators run on generated inputs, output checked against the input's ground truth",
@@ -225,7 +230,8 @@ INFO = {
                 "PrecisDerivedProperty::from_str and, in files with header, LF/CRLF and with/without final newline, through "
                 "CsvLineParser in file order; 16 kinds of damage (field deleted/emptied, hex digit corrupted, sign or blank "
                 "inserted, beyond U+10FFFF, broken or unknown property, 'or' without operands, wrong separator, empty line) "
-                "must give Err with the 1-based line number; reversed ranges / lower-case hex only for 'no panic'; the "
+                "must give Err with the 1-based line number; reversed ranges / lower-case hex only for 'no panic'; a 70,000-row "
+                "file (line numbers beyond 65,535) with rows of up to 290 KB; code point fields of 9-16 hex digits; the "
                 "registry snapshot itself row by row against the own parser. Non-trivial = distinct lines / files.",
         "floor_quick": 100000,
         "technique": "runtime monitoring: round-trip oracle over generated well-formed rows and negative oracle over damaged rows",
@@ -234,7 +240,8 @@ INFO = {
     "C18": {
         "rule": "exhaustive window: every Single(a)/Range(a..=b), a<=b, against every cp over {0..k} U {u32::MAX-k..} U "
                 "{around 0x10FFFF}; 12 relations per pair (partial_cmp,<,<=,>,>=,== in both directions) vs a trichotomy model; "
-                "then random sorted disjoint tables searched with the library's binary_search_by idiom. Non-trivial = "
+                "the same over 110 special magnitudes (powers of two +-1 up to 2^31, 0xFFFF/0x10000, u32::MAX) and random "
+                "full-range triples; then random sorted disjoint tables anywhere in the u32 range searched with the library's binary_search_by idiom. Non-trivial = "
                 "distinct (entry, cp) pairs and (table, probe) pairs, bucketed by relative position.",
         "floor_quick": 5000,
         "technique": "runtime monitoring: exhaustive differential check of the comparison operators against a trichotomy model",
